@@ -94,7 +94,7 @@ impl Monitor for C09 {
         vec![("trainings", tier.pick(6000, 120_000))]
     }
     fn rule(&self) -> &'static str {
-        "case = random layer sequence (dense / convolution / deconvolution / max-pool / feedback block, 0..4 dense layers at varying positions, dense output layer) with dropout (rate from {0.1,0.5,0.9,1.0}) on a random non-empty subset of the dropout-capable layers, 4..12 training and 1..70 validation samples, 1..4 epochs, batch 1..5, SGD; with and (every 4th case) without validation data. (1) hooked state: every forward pass of a validation sample inside learn() must see all training flags false, every forward pass of a training sample all flags of dropout-capable layers true, flags all false after learn() returns and before/during/after stand-alone validate()/predict(). (2) differential: a twin network without dropout receives the trained weights; the validation loss/accuracy learn() reported for its last epoch must equal validate() on the twin bit-for-bit, predict() must agree on probe inputs, and this is repeated for every prefix e <= E by deterministic re-training (prefix losses must coincide). (3) validate() right after learn() equals the last reported epoch. A case is non-trivial when the fixed-seed mask really changes the training forward pass (checked by comparing a training-mode forward with the twin). Distinct = distinct configuration descriptors."
+        "case = random layer sequence (dense / convolution / deconvolution / max-pool / feedback block, 0..4 dense layers at varying positions, dense output layer) with dropout (rate from {0.1,0.5,0.9,1.0}) on a random non-empty subset of the dropout-capable layers, 4..12 training and 1..70 validation samples, 1..4 epochs, batch 1..5, SGD; with and (every 4th case) without validation data; every 8th case uses tolerance 1 so that training stops early after epoch 2; after all checks a second learn() call is made on the same network and checked the same way. (1) hooked state: every forward pass of a validation sample inside learn() must see all training flags false, every forward pass of a training sample all flags of dropout-capable layers true, flags all false after learn() returns and before/during/after stand-alone validate()/predict(). (2) differential: a twin network without dropout receives the trained weights; the validation loss/accuracy learn() reported for its last epoch must equal validate() on the twin bit-for-bit, predict() must agree on probe inputs, and this is repeated for every prefix e <= E by deterministic re-training (prefix losses must coincide). (3) validate() right after learn() equals the last reported epoch. A case is non-trivial when the fixed-seed mask really changes the training forward pass (checked by comparing a training-mode forward with the twin). Distinct = distinct configuration descriptors."
     }
     fn assumptions(&self) -> Vec<&'static str> {
         vec!["the library's dropout mask is a deterministic function of the tensor size (generator re-seeded with a constant), which makes re-training prefixes reproducible", "bit-for-bit equality is demanded because the statement is an identity (same weights, same code path, dropout off)"]
@@ -127,6 +127,7 @@ impl Monitor for C09 {
         let n_train = rng.range(4, 12);
         let n_val = *rng.pick(&[1usize, 2, 5, 9, 70]);
         let with_val = idx % 4 != 3;
+        let tolerance: i32 = if idx % 8 == 5 { 1 } else { 100 };
         let outputs = match cfg.layers.last().unwrap() {
             LCfg::Dense { n, .. } => *n,
             _ => 1,
@@ -165,7 +166,7 @@ impl Monitor for C09 {
             let mut a = mk(&cfg, &params)?;
             let (r, ev) = in_cached_pool(3, || {
                 guard(|| {
-                    let validation: Option<(&Vec<&Tensor>, &Vec<&Tensor>, i32)> = if with_val { Some((&vxr, &vtr, 100)) } else { None };
+                    let validation: Option<(&Vec<&Tensor>, &Vec<&Tensor>, i32)> = if with_val { Some((&vxr, &vtr, tolerance)) } else { None };
                     a.learn(&xr, &tr, validation, batch, e as i32, None)
                 })
             });
@@ -184,6 +185,11 @@ impl Monitor for C09 {
             }
         };
         out.count("trainings", 1);
+        // epochs actually run (early stopping may cut the run short)
+        let epochs = tl.len().min(epochs).max(1);
+        if tl.len() < epochs || (with_val && tolerance == 1) {
+            out.count("trainings_that_took_the_early_stop_path", 1);
+        }
         // non-triviality: does dropout change a training-mode forward pass at all?
         // (observed through the event-free public API: a network in training mode is not
         // reachable from outside, so compare the first epoch's training loss with the twin's)
@@ -309,6 +315,33 @@ impl Monitor for C09 {
         };
         let (last_vl, last_va) = if with_val { (vl[epochs - 1], va[epochs - 1]) } else { (0.0, 0.0) };
         check_epoch(&mut a, epochs, last_vl, last_va, &mut out);
+        // a second learn() call on the same (already trained) network
+        {
+            let (r2, ev2) = in_cached_pool(3, || {
+                guard(|| {
+                    let validation: Option<(&Vec<&Tensor>, &Vec<&Tensor>, i32)> = if with_val { Some((&vxr, &vtr, 100)) } else { None };
+                    a.learn(&xr, &tr, validation, batch, 1, None)
+                })
+            });
+            match r2 {
+                Ok((_, vl2, va2)) => {
+                    out.count("second_learn_calls", 1);
+                    if ev2.iter().any(|e| matches!(e, Event::Forward { tag, training, .. } if vtags.contains(tag) && training.iter().any(|f| *f))) {
+                        out.viol("dropout:validation-forward-in-training-mode:second-learn", format!("second learn() call: a validation forward pass ran in training mode [{}]", desc), detail());
+                    }
+                    if any_flag(&a) {
+                        out.viol("dropout:flags-left-on-after-learn", format!("training flags {:?} after the second learn() call [{}]", verif::training_flags(&a), desc), detail());
+                    }
+                    let (rv, ra) = if with_val { (vl2[0], va2[0]) } else { (0.0, 0.0) };
+                    check_epoch(&mut a, epochs + 1, rv, ra, &mut out);
+                }
+                Err(m) => {
+                    if !m.contains("Loss is NaN") {
+                        out.viol("dropout:learn-panic", format!("second learn() call panicked: {} [{}]", short(&m, 160), desc), detail());
+                    }
+                }
+            }
+        }
         // every shorter prefix
         for e in 1..epochs {
             match train_a(e) {
